@@ -212,6 +212,14 @@ def check_dot(ctx, prop, exporter_kind, lib, nodes, idmap, names, par, ch, s, st
         if phase2.get("rename") or phase2.get("move"):
             ctx.count("%s.tree_changed_between_iterations" % prop)
         ctx.count("%s.predicate_change" % prop)
+        if phase2.get("abort") is not None and nattr is not None:
+            # ... and once more under the new predicates: the aborted pass itself may have met nodes for the first time
+            cur["abort"] = phase2["abort"]
+            try:
+                list(ex)
+            except AbortIteration:
+                ctx.count("%s.aborted_iteration_met_new_nodes" % prop)
+            cur["abort"] = None
         lines3 = list(ex)
         if not _verify_dot(ctx, prop, lines3, bad, ind, graph, gname, options, ch2, s, phase2["stop"], phase2["hidden"], ml2, names2, namefn, nattr, eattr, edgetype, exporter_kind, unique_default, known, cfg, phase):
             return False
@@ -412,6 +420,13 @@ def check_mermaid(ctx, prop, lib, nodes, idmap, names, par, ch, s, stop, hidden,
         if phase2.get("rename") or phase2.get("move"):
             ctx.count("%s.tree_changed_between_iterations" % prop)
         ctx.count("%s.predicate_change" % prop)
+        if phase2.get("abort") is not None and nodefn is not None:
+            cur["abort"] = phase2["abort"]
+            try:
+                list(ex)
+            except AbortIteration:
+                ctx.count("%s.aborted_iteration_met_new_nodes" % prop)
+            cur["abort"] = None
         names, ch = names2, ch2
         if not _verify_mermaid(ctx, prop, list(ex), bad, ind, graph, gname, options, ch2, s, phase2["stop"], phase2["hidden"], ml2, names2, namefn, nodefn, edgefn, phase):
             return False
@@ -530,7 +545,9 @@ CUSTOMS = [
     {"indent": 3, "graph": "digraph", "name": "p", "options": [], "nattr": "partial", "eattr": "partial"},
 ]
 
-HOSTILE_NAMES = ['a"b', "back\\slash", 'q"\\"', "sp ace", "é中", "\\", '"', "a\\\\b", "x;y", "tab\tz", "n{}", "->", "[lbl]", "a", "a", "b", "\U0001f600", "new\nline", "'", "%s", ("it's", 'q"', 1), 3.5, None, ("\\",), "cpu%%", "100%", "%d%%", 'many' + '"\\' * 20, '"' * 40, "e\u0301", "\u00e9", "\u212b", "A\u030a", "\u00c5", "\u2126"]
+HOSTILE_NAMES = ['a"b', "back\\slash", 'q"\\"', "sp ace", "é中", "\\", '"', "a\\\\b", "x;y", "tab\tz", "n{}", "->", "[lbl]", "a", "a", "b", "\U0001f600", "new\nline", "'", "%s", ("it's", 'q"', 1), 3.5, None, ("\\",), "cpu%%", "100%", "%d%%", 'many' + '"\\' * 20, '"' * 40, "e\u0301", "\u00e9", "\u212b", "A\u030a", "\u00c5", "\u2126",
+                 # values that compare (and hash) equal but print differently
+                 1, 1.0, True, 0, 0.0, False, "1", "True"]
 
 
 def hostile_names(rng, n, collide):
